@@ -85,7 +85,7 @@ def enc_c(z):
     return [z.real, z.imag]
 
 
-def gen_case(ctx, case, rng, lowfilling=False):
+def gen_case(ctx, case, rng, lowfilling=False, sym4=False):
     """returns a JSON-serialisable description of one case (inputs only)"""
     from openfermion import FermionOperator
     quick = ctx.tier == "quick"
@@ -104,6 +104,10 @@ def gen_case(ctx, case, rng, lowfilling=False):
         # spatial Hamiltonians are refused for spin-broken wavefunctions (dimension guard)
         wk = rng.choice(["single", "single", "multi"])
     cplx = rng.random() < 0.5
+    if sym4:
+        hk, cplx = "restricted", False
+        norb = rng.choice([2, 3, 3]) if quick else rng.choice([2, 3, 3, 4])
+        wk = rng.choice(["single", "single", "multi"])
     e0 = rng.choice([0, 0, 2, complex(-1, 3)])
     if wk == "lowfilling":
         n_, sz_ = rng.choice([(2, 0), (2, 0), (2, 0), (1, 1), (1, -1)])
@@ -118,11 +122,23 @@ def gen_case(ctx, case, rng, lowfilling=False):
             "entries": [[a, b, enc_c(c)] for a, b, c in U.wfn_entries(w)]}
     if hk == "restricted":
         rank = rng.choice([1, 2, 2]) if not lowfilling else 2
+        if sym4:
+            rank = 2
         tens = [rand_tensor(rng, norb, r, rng.choice([0.05, 0.3, 1.0]), cplx) for r in range(1, rank + 1)]
-        if rank == 2 and rng.random() < 0.5 and not lowfilling:
+        usym = rng.random() if rank == 2 else 1.0
+        if sym4:
+            usym = 0.6
+        if rank == 2 and usym < 0.5 and not lowfilling:
             tens[1] = symmetrize8(tens[1])
             tens[0] = tens[0] + tens[0].T
             spec["sym8"] = True
+        elif rank == 2 and usym < 0.8 and not lowfilling and not cplx:
+            # real, Hermitian and symmetric under the exchange of the two electrons, but NOT under i <-> j alone (what
+            # the square of a real antisymmetric one-body generator looks like): the compressed index-pair algorithms
+            # for real-orbital (8-fold symmetric) integrals do not apply to it
+            tens[1] = tens[1] + tens[1].transpose(1, 0, 3, 2)
+            tens[0] = tens[0] + tens[0].T
+            spec["sym4"] = True
         if not cplx and rng.random() < 0.3:
             tens = [t.astype(numpy.complex128) for t in tens]
             spec["complex_dtype_zero_imag"] = True
@@ -330,6 +346,12 @@ def run(ctx):
         spec = gen_case(ctx, 100000 + case, rng, lowfilling=True)
         spec["lowfilling"] = True
         execute(ctx, spec)
+    # real Hermitian two-body tensors that are symmetric under the exchange of the two electrons but not under the
+    # exchange of the two indices of one electron (no real-orbital 8-fold symmetry)
+    for case in range(16 if ctx.tier == "quick" else 200):
+        spec = gen_case(ctx, 300000 + case, rng, sym4=True)
+        execute(ctx, spec)
+        ctx.count("family:real-4fold-symmetric")
     run_number_broken(ctx)
 
 
